@@ -27,6 +27,7 @@ type c12Combo struct {
 	Mode    uint32   `json:"mode"`
 	Front   bool     `json:"front"`
 	EvalAll bool     `json:"eval_all"`
+	ImmDir  bool     `json:"immutable_dir,omitempty"` // the target's directory accepts no new entries (chattr +i): neither the rename nor a sibling staging file is possible, yq has to write the target itself
 }
 
 type c12Case struct {
@@ -89,6 +90,11 @@ func c12Combos(thorough bool) []c12Combo {
 			}
 		}
 	}
+	// the last resort: temp dir on another file system and a target directory that accepts no new entries (no faults injected here:
+	// a direct write cannot be all-or-nothing; what is checked is that the file ends up with exactly the new content)
+	for _, e := range []ex{{"ok", "single", []string{".a = 5"}}, {"shrinks", "single", []string{"del(.b)"}}, {"shrinks-big", "big", []string{"del(.items[2:])"}}, {"grows", "single", []string{`.c = "` + strings.Repeat("y", 300) + `"`}}, {"ok3", "three", []string{".a += 1"}}} {
+		out = append(out, c12Combo{Name: "immutable-dir/" + e.name, Input: in[e.input], Args: e.args, XDev: true, Mode: 0o640, ImmDir: true})
+	}
 	for _, xdev := range []bool{false, true} {
 		out = append(out, c12Combo{Name: "front-matter", Input: in["front"], Args: []string{"--front-matter=process", ".a = 5"}, XDev: xdev, Mode: 0o640, Front: true})
 		out = append(out, c12Combo{Name: "front-matter-parse-error", Input: in["front"], Args: []string{"--front-matter=process", ".a = ("}, XDev: xdev, Mode: 0o640, Front: true})
@@ -114,10 +120,20 @@ func c12Exec(work string, cb c12Combo, plan string, inPlace, trace bool) (c12Obs
 	}
 	defer os.RemoveAll(dir)
 	target := filepath.Join(dir, "target.yml")
+	if cb.ImmDir {
+		os.Mkdir(filepath.Join(dir, "imm"), 0o755)
+		target = filepath.Join(dir, "imm", "target.yml")
+	}
 	if err := os.WriteFile(target, []byte(cb.Input), os.FileMode(cb.Mode)); err != nil {
 		return c12Obs{}, err
 	}
 	os.Chmod(target, os.FileMode(cb.Mode))
+	if cb.ImmDir {
+		if out, err := exec.Command("chattr", "+i", filepath.Join(dir, "imm")).CombinedOutput(); err != nil {
+			return c12Obs{}, fmt.Errorf("chattr +i not possible here: %v %s", err, out)
+		}
+		defer exec.Command("chattr", "-i", filepath.Join(dir, "imm")).Run()
+	}
 	tmp := filepath.Join(dir, "tmp")
 	if cb.XDev {
 		tmp, err = os.MkdirTemp("/dev/shm", "mc-c12-")
@@ -311,7 +327,7 @@ func c12Run(c *fw.Ctx) error {
 		c12StraceCheck(c, work)
 	}
 	combos := c12Combos(c.Thorough())
-	c.Res.Bound = fmt.Sprintf("%d (input, expression, configuration) combinations x every single fault at every reached step (error, short write/copy, SIGKILL before the step, SIGKILL after half a write); double faults on %s", len(combos), map[bool]string{false: "the `ok` and `ok3` combinations", true: "every combination"}[c.Thorough()])
+	c.Res.Bound = fmt.Sprintf("%d (input, expression, configuration) combinations x every single fault at every reached step (error, short write/copy, SIGKILL before the step, SIGKILL after half a write); double faults on %s; 5 of the combinations run without faults in a directory that accepts no new entries (chattr +i) with the temp dir on another file system, where yq has to write the target itself", len(combos), map[bool]string{false: "the `ok` and `ok3` combinations", true: "every combination"}[c.Thorough()])
 	var idx int64
 	for ci, cb := range combos {
 		if cb.XDev && !xdevOK {
@@ -335,10 +351,17 @@ func c12Run(c *fw.Ctx) error {
 		// cheap way to know the plan list without running: all workers record (2 runs per combo)
 		r, err := getRef()
 		if err != nil {
+			if cb.ImmDir && strings.Contains(err.Error(), "chattr") {
+				c.Note("chattr +i is not possible here: the immutable-directory configuration was skipped")
+				continue
+			}
 			return err
 		}
 		pairs := c.Thorough() || cb.Name == "ok" || cb.Name == "ok3"
 		plans := append([]string{""}, c12Plans(r.steps, 2, pairs && cb.Mode == 0o640 && !cb.EvalAll)...)
+		if cb.ImmDir {
+			plans = []string{""}
+		}
 		c.SetAdd("steps_seen", strings.Join(r.steps, " "))
 		for _, plan := range plans {
 			idx++
